@@ -2,10 +2,10 @@
 # Offline setup: jsonschema (+deps) from the local wheelhouse into /verif/_deps; /venv is left untouched.
 set -e
 cd "$(dirname "$0")"
-if ! PYTHONPATH=/verif/_deps /venv/bin/python -c "import jsonschema, referencing" 2>/dev/null; then
+if ! PYTHONPATH="$(pwd)/_deps" /venv/bin/python -c "import jsonschema, referencing" 2>/dev/null; then
   rm -rf _deps && mkdir -p _deps
-  PIP_NO_INDEX=1 /venv/bin/pip install --quiet --no-index --find-links /opt/veriftools/wheels --target /verif/_deps jsonschema
+  PIP_NO_INDEX=1 /venv/bin/pip install --quiet --no-index --find-links /opt/veriftools/wheels --target "$(pwd)/_deps" jsonschema
 fi
 mkdir -p evidence replays
-PYTHONPATH=/verif:/verif/_deps PYTHONDONTWRITEBYTECODE=1 PYTHONHASHSEED=0 /venv/bin/python -m mc.selftest
+PYTHONPATH="$(pwd):$(pwd)/_deps" PYTHONDONTWRITEBYTECODE=1 PYTHONHASHSEED=0 /venv/bin/python -m mc.selftest
 echo "setup ok"
